@@ -1,4 +1,132 @@
-(* placeholder, replaced below *)
-From MptV Require Import Base.Mem C05.TypedModel C05.TypedSpec.
-Example C05_placeholder : mon_log [] = inl mon0.
+(* C05 — Managed elements in typed buffers are finalised exactly once.
+   This file holds only the property theorems (each closed by [exact] of a lemma proved
+   elsewhere), their non-vacuity examples and Print Assumptions.
+
+   Reading guide.  [world] = heap of buffers + handles + ghost context (token counter, oracle
+   script of failing constructors, event log, newest first); [step] transcribes
+   mpt_buffer_set / _cut / _insert, the buffer vtable (detach: copy vs move, unref), mpt_array_reserve,
+   mpt_array_clone and the C++ buffer::trim/skip/copy/move/append, content<T>::set_length with their
+   byte-offset loops (C05/TypedModel.v); [exec] runs a history, [release_all nh] releases every
+   handle.  The specification (C05/TypedSpec.v) is the discipline [exactly_once] on the
+   chronological log: every token initialised at most once, a destructor only on a live element
+   (which dies), a copy constructor only from a live element, never a destructor or a copy on
+   memory that is no element; [all_finalised]: every initialised token has its Fini.
+   [env_ok]: element sizes and allocation granularity are positive.  No bound on element counts,
+   buffer sizes, number of handles, history length or the constructor failure script. *)
+From MptV Require Import Base.Mem C05.TypedModel C05.TypedSpec C05.TypedMonitor C05.TypedLoops C05.TypedOps
+  C05.TypedSet C05.TypedWorld C05.TypedStep C05.TypedRun C05.TypedShared.
+
+(* Every history of new/reserve/set/insert/cut/detach/clone/release/trim/skip/append/set_length/
+   copy/move, any arguments (positions and lengths inside, at the end of, behind the data, misaligned),
+   any number of handles sharing buffers, constructors failing wherever the script says: once all
+   handles are released
+     - no step faulted (no destructor or constructor call outside a buffer),
+     - no buffer is left,
+     - each token has at most one Init, a Fini only while live, copies only from live elements,
+       no destructor/copy on non-elements  ([exactly_once]),
+     - every initialised token has been finalised ([all_finalised]: nothing stays alive). *)
+Theorem C05_elements_exactly_once :
+  forall e nh script ops, env_ok e ->
+    exists wf,
+      exec e (init_world nh script) (ops ++ release_all nh) = Ok wf
+      /\ forallb is_ok (run e (init_world nh script) (ops ++ release_all nh)) = true
+      /\ (forall id, hget wf id = None)
+      /\ exactly_once (rev (clog (wctx wf)))
+      /\ all_finalised (rev (clog (wctx wf))).
+Proof. exact history_exactly_once. Qed.
+
+(* At EVERY point of every history the log is accepted by the specification monitor and the
+   live tokens are exactly the elements stored in the used slots of the allocated buffers,
+   each stored once (no raw duplicate inside a buffer or across buffers). *)
+Theorem C05_stored_is_live_at_every_point :
+  forall e nh script ops, env_ok e ->
+    exists w m,
+      exec e (init_world nh script) ops = Ok w
+      /\ mon_log (clog (wctx w)) = inl m
+      /\ (forall t, In t (mlive m) <-> exists id b, hget w id = Some b /\ In t (buf_els e b))
+      /\ (forall id b, hget w id = Some b -> NoDup (buf_els e b))
+      /\ (forall i j bi bj t, i <> j -> hget w i = Some bi -> hget w j = Some bj ->
+                              In t (buf_els e bi) -> ~ In t (buf_els e bj)).
+Proof. exact history_prefix_disciplined. Qed.
+
+(* Detaching a shared typed buffer (other references remain, the type allows copies, constructors
+   succeed, requested length keeps all data): the handle gets a NEW buffer whose elements are fresh
+   tokens, one [EInit new (Some source)] is logged per element in order and nothing else, no token of
+   the source appears in the copy (no raw element bytes duplicated), the source keeps its elements. *)
+Theorem C05_shared_copy_constructs :
+  forall e nh script ops w h id b k len,
+    env_ok e -> exec e (init_world nh script) ops = Ok w -> h < nh ->
+    handle w h = Some id -> hget w id = Some b -> btr b = Some k ->
+    2 <= bref b -> bncp b = false -> ecopyfail e = false -> cscript (wctx w) = [] ->
+    bused b <= len ->
+    exists w' nid nb,
+      step e w (OpDetach h len) = Ok (w', OOk)
+      /\ handle w' h = Some nid /\ nid <> id
+      /\ hget w' nid = Some nb /\ hget w' id = Some (with_ref b (bref b - 1))
+      /\ clog (wctx w') = rev (copy_events (cnext (wctx w)) (buf_els e b)) ++ clog (wctx w)
+      /\ buf_els e nb = seq (cnext (wctx w)) (length (buf_els e b))
+      /\ (forall t, In t (buf_els e nb) -> ~ In t (buf_els e b)).
+Proof. exact shared_copy_reachable. Qed.
+
+(* One more operation after any history: it never faults and the invariants
+   (heap discipline + reference count = number of handles) hold again. *)
+Theorem C05_step_never_faults :
+  forall e nh script ops w o,
+    env_ok e -> exec e (init_world nh script) ops = Ok w ->
+    exists w' x, step e w o = Ok (w', x) /\ winv e nh w'.
+Proof. exact reachable_step_total. Qed.
+
+(* The executable monitor (run on the log of the IMPLEMENTATION by the correspondence check)
+   accepts only logs that satisfy the declarative discipline; its live set is the set of
+   tokens with one Init and no Fini. *)
+Theorem C05_monitor_sound :
+  forall l m, mon_log l = inl m -> mon_sound l m.
+Proof. exact mon_log_sound. Qed.
+
+(* ---- non-vacuity ---- *)
+Definition ex_env : env := mkenv 8 16 64 128 false.
+
+Example C05_env_ok : env_ok ex_env.
+Proof. unfold env_ok, ex_env; simpl; lia. Qed.
+
+(* a history with sharing, an overwrite in the middle, a failing constructor, trim and detach:
+   10 elements are initialised and finalised (20 events), the second set hits a refused constructor *)
+Definition ex_ops : list op :=
+  [OpNew 0 (Some KA) 0 false false; OpSet 0 (Some KA) 0 32 true; OpClone 1 0;
+   OpSet 0 (Some KA) 8 16 false; OpDetach 1 32; OpTrim 0 8; OpInsert 1 8 8].
+
+Example C05_example_log :
+  match exec ex_env (init_world 2 [true; true; true; true; false; false])
+             (ex_ops ++ release_all 2) with
+  | Ok w => length (clog (wctx w)) = 20 /\ mon_log (clog (wctx w)) = inl (mkmon [] 10)
+  | _ => False
+  end.
+Proof. vm_compute. split; reflexivity. Qed.
+
+(* the hypotheses of C05_shared_copy_constructs are met by a reachable world *)
+Example C05_shared_example :
+  match exec ex_env (init_world 2 []) [OpNew 0 (Some KA) 0 false false; OpSet 0 (Some KA) 0 24 true; OpClone 1 0] with
+  | Ok w =>
+    handle w 1 = Some 0 /\
+    match hget w 0 with
+    | Some b => btr b = Some KA /\ bref b = 2 /\ bncp b = false /\ bused b = 24 /\ buf_els ex_env b = [3; 4; 5]
+    | None => False
+    end /\ cscript (wctx w) = []
+  | _ => False
+  end.
+Proof. vm_compute. repeat split; reflexivity. Qed.
+
+(* the monitor rejects what the property forbids *)
+Example C05_monitor_rejects_double_fini : mon_log [EFini 0; EFini 0; EInit 0 None] = inr (VFiniNotLive 0).
 Proof. reflexivity. Qed.
+Example C05_monitor_rejects_raw : mon_log [EFiniBad None; EInit 0 None] = inr (VFiniBad None).
+Proof. reflexivity. Qed.
+Example C05_monitor_rejects_copy_from_dead :
+  mon_log [EInit 1 (Some 0); EFini 0; EInit 0 None] = inr (VCopyFromDead 1 0).
+Proof. reflexivity. Qed.
+
+Print Assumptions C05_elements_exactly_once.
+Print Assumptions C05_stored_is_live_at_every_point.
+Print Assumptions C05_shared_copy_constructs.
+Print Assumptions C05_step_never_faults.
+Print Assumptions C05_monitor_sound.
